@@ -35,6 +35,9 @@ def viol(ctx, sig, detail, text):
 def uploader_diff(ctx, cfg, d, x, exp, body, detail):
     """exp: up5 / b5 / local as python sets.  True when the body is what the
     documented semantics demand."""
+    # a counter present with value 0: "present locally" is not explicit about it; left out of the comparison
+    body.data = set(x_ for x_ in body.data if x_[2] != 0)
+    exp = dict(exp, up5=set(x_ for x_ in exp['up5'] if x_[2] != 0))
     if body.data == exp['up5'] and body.progs <= exp['b5']:
         return True
     flagged = set()
